@@ -106,6 +106,13 @@ pub struct Case {
     /// loss, corruption, duplicates in selections and REPLAY stay checked
     #[serde(default)]
     pub no_count_after_recovery: bool,
+    /// the aggregate = selection comparison is off for the whole history (exploration of the step classes of open findings)
+    #[serde(default)]
+    pub no_count_at_all: bool,
+    /// a manual FLUSH right before the final SIGKILL (nothing is stored after it, so the open finding about
+    /// stores that follow a manual FLUSH stays out of reach): flushed data must survive the crash
+    #[serde(default)]
+    pub final_flush: bool,
 }
 
 #[derive(Clone, Copy, PartialEq, Debug)]
@@ -177,12 +184,19 @@ pub struct Classes {
     /// second exploration: idle SIGKILLs only (no armed step), histories continue through any number of crash
     /// recoveries; while the post-recovery class is open: no compaction after a recovery, no COUNT oracle after one
     pub idle_only: bool,
+    /// third exploration: the step classes of open findings (flush / WAL pruning / rotation, compaction / reclaim) ARE armed,
+    /// the history stops after the first recovery, and only the oracle those findings break (aggregate = selection)
+    /// is switched off; loss, corruption, duplicates and resurrection stay checked
+    pub finding_steps_only: bool,
 }
 
 pub fn case_strategy(tier: Tier, cl: Classes, max_shards: usize) -> BoxedStrategy<Case> {
     let steps: Vec<u8> = (0..STEPS.len() as u8)
         .filter(|i| {
             let c = step_class(STEPS[*i as usize]);
+            if cl.finding_steps_only {
+                return (cl.excl_flush_steps && (c == "flush" || c == "walclean" || c == "rotate")) || (cl.excl_compact_steps && (c == "compact" || c == "reclaim"));
+            }
             if cl.excl_flush_steps && (c == "flush" || c == "walclean" || c == "rotate") {
                 return false;
             }
@@ -228,9 +242,9 @@ pub fn case_strategy(tier: Tier, cl: Classes, max_shards: usize) -> BoxedStrateg
                 3 => any::<bool>().prop_map(|synced| COp::Kill { synced }),
                 4 => (prop::sample::select(steps.clone()), 1u8..=3).prop_map(move |(step, nth)| if idle_only { COp::Kill { synced: step % 2 == 0 } } else { COp::Arm { step, nth } }),
             ];
-            (Just(cfg), Just(n_types), Just(n_ctx), prop::collection::vec(op, 8..=tier.pick(45, 80)))
+            (Just(cfg), Just(n_types), Just(n_ctx), prop::collection::vec(op, 8..=tier.pick(45, 80)), prop::bool::weighted(0.4))
         })
-        .prop_map(move |(cfg, n_types, n_ctx, ops)| Case { cfg, types: simple_types()[..n_types].to_vec(), n_ctx, ops, quiesce_before_kill: cl.excl_flush_steps, no_store_after_compaction_restart: cl.excl_compact_restart, no_store_after_restart: cl.excl_store_after_restart && !cl.idle_only, stop_after_first_recovery: cl.excl_store_after_restart && !cl.idle_only, no_compaction_after_recovery: cl.excl_store_after_restart && cl.idle_only, no_count_after_recovery: cl.excl_store_after_restart && cl.idle_only })
+        .prop_map(move |(cfg, n_types, n_ctx, ops, final_flush)| Case { final_flush, cfg, types: simple_types()[..n_types].to_vec(), n_ctx, ops, quiesce_before_kill: cl.excl_flush_steps && !cl.finding_steps_only, no_store_after_compaction_restart: cl.excl_compact_restart, no_store_after_restart: cl.excl_store_after_restart && !cl.idle_only, stop_after_first_recovery: cl.excl_store_after_restart && !cl.idle_only, no_compaction_after_recovery: cl.excl_store_after_restart && cl.idle_only, no_count_after_recovery: cl.excl_store_after_restart && cl.idle_only, no_count_at_all: cl.finding_steps_only })
         .boxed()
 }
 
@@ -386,7 +400,7 @@ pub fn observe(run: &mut Run, c: &Case, what: &str, weak_prefix: bool) -> Result
         // beside a flush started by an earlier (or the same) STORE; recovery then replays entries that are also in
         // the new segment and aggregates count them twice. The COUNT comparison is excluded for such a crash.
         let wal_step_with_flush_class_open = c.quiesce_before_kill && run.crashes.iter().any(|w| w.contains("step:wal."));
-        let count_excluded = (c.no_count_after_recovery && !run.crashes.is_empty()) || wal_step_with_flush_class_open;
+        let count_excluded = (c.no_count_after_recovery && !run.crashes.is_empty()) || wal_step_with_flush_class_open || c.no_count_at_all;
         if cnt != set.len() as i64 && !count_excluded {
             return Ok(Some(("count-differs-from-selection".into(), json!({"at": what, "cmd": qc, "count": cnt, "selection": set.len(), "rows": set, "crashes": run.crashes, "log": log(run)}))));
         }
@@ -466,6 +480,12 @@ pub fn run_history(c: &Case, rep: &mut CaseReport, tag: &str, monitor: bool) -> 
                     {
                         rep.excluded_known += 1;
                         return Ok(());
+                    }
+                    // open finding "process dies while a flush is in flight": an armed WAL step fires inside this STORE's WAL
+                    // append, i.e. before the event reaches the memtable; flushes started by EARLIER stores are waited for
+                    // first, so that the crash does not coincide with one
+                    if c.quiesce_before_kill && run.armed.as_deref().map(|s| step_class(s) == "wal").unwrap_or(false) {
+                        let _ = run.w.db.req(json!({"op":"flush_barrier"}));
                     }
                     let (m, cmd) = run.w.prepare(ev);
                     run.w.next_seq += 1;
@@ -574,6 +594,16 @@ pub fn run_history(c: &Case, rep: &mut CaseReport, tag: &str, monitor: bool) -> 
                 Err(e) => return Err(e),
             }
         }
+        if run.w.db.alive && c.final_flush && run.crashes.is_empty() {
+            match run.w.apply(&Op::Flush).and_then(|_| run.w.apply(&Op::Barrier)) {
+                Ok(()) => {
+                    run.had_manual_flush = true;
+                    rep.label("hist:final-manual-flush");
+                }
+                Err(Problem::Db(DbError::Died(_))) => {}
+                Err(e) => return Err(e),
+            }
+        }
         if run.w.db.alive {
             if c.quiesce_before_kill {
                 let _ = run.w.db.barrier();
@@ -664,6 +694,7 @@ pub fn classes(ctx: &Ctx) -> Classes {
         excl_store_after_restart: ctx.open_any("crash.store_after_crash_recovery"),
         excl_wal_steps: false,
         idle_only: false,
+        finding_steps_only: false,
     }
 }
 
@@ -691,6 +722,14 @@ pub fn run(ctx: &Ctx) -> i32 {
         let cl2 = Classes { idle_only: true, ..cl };
         let cases2 = ctx.tier.pick(72, 1200);
         if let Some(f) = explore(ctx, "idle-crash-histories", || case_strategy(ctx.tier, cl2, 3), Explore { cases: cases2, max_shrink_iters: ctx.tier.pick(80, 400), lanes: ctx.lanes }, &stats, run_case) {
+            report.violations.push(f);
+        }
+    }
+    // third exploration: crash points inside flush / WAL pruning / rotation / compaction / reclaim (classes of open findings)
+    if report.violations.is_empty() && (cl.excl_flush_steps || cl.excl_compact_steps) && std::env::var("VCHECK_C01_MODE_C").is_ok() {
+        let cl3 = Classes { finding_steps_only: true, ..cl };
+        let cases3 = ctx.tier.pick(72, 1200);
+        if let Some(f) = explore(ctx, "finding-step-histories", || case_strategy(ctx.tier, cl3, 3), Explore { cases: cases3, max_shrink_iters: ctx.tier.pick(80, 400), lanes: ctx.lanes }, &stats, run_case) {
             report.violations.push(f);
         }
     }
